@@ -1,5 +1,6 @@
 import EmsModel.Core.TimeUnits
 import EmsModel.Lemmas.TimeUnits
+import EmsModel.Lemmas.TimeUnitsFormat
 import EmsModel.Lemmas.TimeUnitsCal
 import EmsModel.Lemmas.TimeUnitsSpell
 /-!
@@ -39,57 +40,6 @@ theorem offset_digits (m : Int) (h : m.natAbs < 24 * 60) :
 
 /-! ## the form of the output -/
 
-/-- `<unit> since YYYY-MM-DD HH:MM:SS ±HH:MM`: fixed-width zero-padded fields, explicit sign,
-two-digit hours. -/
-def EmsForm (p out : Str) : Prop :=
-  ∃ y1 y2 y3 y4 m1 m2 d1 d2 h1 h2 n1 n2 s1 s2 sg o1 o2 o3 o4 : Char,
-    out = p ++ ' ' :: 's' :: 'i' :: 'n' :: 'c' :: 'e' :: ' ' ::
-      [y1, y2, y3, y4, '-', m1, m2, '-', d1, d2, ' ', h1, h2, ':', n1, n2, ':', s1, s2, ' ', sg, o1, o2, ':', o3, o4] ∧
-    (∀ ch ∈ [y1, y2, y3, y4, m1, m2, d1, d2, h1, h2, n1, n2, s1, s2, o1, o2, o3, o4], isDig ch = true) ∧
-    (sg = '+' ∨ sg = '-')
-
-theorem render_form (p : Str) (f : Fields) (off : Int) : EmsForm p (render pad4 formatOffset p f off) := by
-  refine ⟨dch (f.year.toNat / 1000), dch (f.year.toNat / 100), dch (f.year.toNat / 10), dch f.year.toNat,
-    dch (f.month / 10), dch f.month, dch (f.day / 10), dch f.day, dch (f.hour / 10), dch f.hour,
-    dch (f.minute / 10), dch f.minute, dch (f.second / 10), dch f.second,
-    if off < 0 then '-' else '+', dch (off.natAbs / 60 / 10), dch (off.natAbs / 60),
-    dch (off.natAbs % 60 / 10), dch (off.natAbs % 60), ?_, ?_, ?_⟩
-  · simp [render, since, pad4, pad2, formatOffset]
-  · intro ch hch
-    simp only [List.mem_cons, List.mem_nil_iff, or_false] at hch
-    rcases hch with h | h | h | h | h | h | h | h | h | h | h | h | h | h | h | h | h | h <;>
-      (rw [h]; exact isDig_dch _)
-  · by_cases h : off < 0 <;> simp [h]
-
-/-- what `formatCore` returns is always a rendering of the unit it read -/
-theorem formatCore_some (fy : Nat → Str) (fo : Int → Str) (c : CalOps) (calendar units out : Str)
-    (ref : Int × Bool) (h : formatCore fy fo c calendar units = some (out, ref)) :
-    ∃ p b, parseUnits units = some (p, b) ∧ b.off.natAbs < 1440 ∧
-      refInstant c calendar units = some ref ∧
-      c.valid (c.ofSec (ref.1 + 60 * b.off)) = true ∧
-      out = render fy fo p (c.ofSec (ref.1 + 60 * b.off)) b.off := by
-  unfold formatCore at h
-  cases hp : parseUnits units with
-  | none => simp [hp] at h
-  | some pb =>
-    obtain ⟨p, b⟩ := pb
-    simp only [hp] at h
-    by_cases ho : 1440 ≤ b.off.natAbs
-    · simp [ho] at h
-    · rw [if_neg ho] at h
-      cases hr : refInstant c calendar units with
-      | none => simp [hr] at h
-      | some r =>
-        obtain ⟨t, mic⟩ := r
-        simp only [hr] at h
-        by_cases hv : c.valid (c.ofSec (t + 60 * b.off)) = false
-        · simp [hv] at h
-        · rw [if_neg hv] at h
-          simp only [Option.some.injEq, Prod.mk.injEq] at h
-          obtain ⟨h1, h2⟩ := h
-          subst h2
-          refine ⟨p, b, rfl, by omega, rfl, by simpa using hv, h1.symm⟩
-
 /-- **output_form.** Whatever the formatter returns — for any units string, calendar, date, time
 of day and offset — has the form `<unit> since YYYY-MM-DD HH:MM:SS ±HH:MM`, where `<unit>` is the
 (lower-cased) unit of the input. -/
@@ -110,101 +60,6 @@ theorem output_form (c : CalOps) (calendar units out : Str)
       exact ⟨p, b, hp, ho ▸ render_form p _ _⟩
 
 /-! ## the instant -/
-
-theorem allowedUnits_period : ∀ p ∈ allowedUnits,
-    (p ≠ [] ∧ p.all (fun ch => !isWs ch) = true ∧ lower p = p) := by decide
-
-theorem isPeriod_of_allowed (p : Str) (h : p ∈ allowedUnits) : IsPeriod p := by
-  obtain ⟨h1, h2, h3⟩ := allowedUnits_period p h
-  refine ⟨h1, ?_, h3⟩
-  intro ch hch
-  have := List.all_eq_true.mp h2 ch hch
-  simpa using this
-
-/-- what `refInstant` returning a value tells about the string -/
-theorem refInstant_some (c : CalOps) (calendar units : Str) (t : Int) (mic : Bool)
-    (h : refInstant c calendar units = some (t, mic)) :
-    ∃ k p b, classifyCalendar calendar = some k ∧ parseUnits units = some (p, b) ∧ p ∈ allowedUnits ∧
-      c.valid b.f = true ∧ t = c.toSec b.f - 60 * b.off ∧ mic = b.micro ∧
-      c.toSec firstFields ≤ t ∧ t ≤ c.toSec lastFields ∧ pythonDate k (c.ofSec t) = true := by
-  unfold refInstant at h
-  cases hk : classifyCalendar calendar with
-  | none => simp [hk] at h
-  | some k =>
-    cases hp : parseUnits units with
-    | none => simp [hk, hp] at h
-    | some pb =>
-      obtain ⟨p, b⟩ := pb
-      simp only [hk, hp] at h
-      by_cases hm : p ∈ allowedUnits
-      · rw [if_pos hm] at h
-        unfold bitsInstant at h
-        by_cases hv : c.valid b.f = false
-        · simp [hv] at h
-        · rw [if_neg hv] at h
-          by_cases hr : c.toSec b.f - 60 * b.off < c.toSec firstFields ∨ c.toSec lastFields < c.toSec b.f - 60 * b.off
-          · simp [hr] at h
-          · simp only [] at h
-            rw [if_neg hr] at h
-            by_cases hpy : pythonDate k (c.ofSec (c.toSec b.f - 60 * b.off)) = false
-            · simp [hpy] at h
-            · rw [if_neg hpy] at h
-              simp only [Option.some.injEq, Prod.mk.injEq] at h
-              obtain ⟨h1, h2⟩ := h
-              refine ⟨k, p, b, rfl, rfl, hm, by simpa using hv, h1.symm, h2.symm, ?_, ?_, ?_⟩
-              · omega
-              · omega
-              · rw [← h1]; simpa using hpy
-      · simp [hm] at h
-
-/-- the EMS rendering of valid fields is read back as the same unit, fields and offset -/
-theorem parseUnits_render (c : CalOps) (L : CalLaws c) (p : Str) (hp : p ∈ allowedUnits) (f : Fields)
-    (hv : c.valid f = true) (off : Int) (ho : off.natAbs < 1440) :
-    parseUnits (render pad4 formatOffset p f off) = some (p, ⟨f, false, off⟩) := by
-  obtain ⟨hy1, hy2, _, hm, _, hd, hh, hmi, hs⟩ := L.bounds f hv
-  have hP := isPeriod_of_allowed p hp
-  -- the date part, seen as `digit :: rest` and as `init ++ [digit]`
-  have hdate : ∀ tl, pad4 f.year.toNat ++ tl = dch (f.year.toNat / 1000) :: (dch (f.year.toNat / 100) ::
-      dch (f.year.toNat / 10) :: dch f.year.toNat :: tl) := by intro tl; simp [pad4]
-  have hrender : render pad4 formatOffset p f off = p ++ ' ' :: (since ++ ' ' :: emsDate f off) := by
-    simp [render, emsDate]
-  have hsplit : datesplit (render pad4 formatOffset p f off) = some (p, emsDate f off) := by
-    rw [hrender]
-    unfold emsDate
-    rw [hdate]
-    exact datesplit_render p hP _ (isWs_dch _) _
-  have hstrip : stripR (emsDate f off) = emsDate f off := by
-    have : emsDate f off = (pad4 f.year.toNat ++ '-' :: (pad2 f.month ++ '-' :: (pad2 f.day ++ ' ' :: (pad2 f.hour ++ ':' ::
-        (pad2 f.minute ++ ':' :: (pad2 f.second ++ ' ' :: (if off < 0 then '-' else '+') ::
-          (pad2 (off.natAbs / 60) ++ [':', dch (off.natAbs % 60 / 10)]))))))) ++ [dch (off.natAbs % 60)] := by
-      simp [emsDate, formatOffset, pad2]
-    rw [this]
-    exact stripR_snoc _ _ (isWs_dch _)
-  have hparse := parseDate_emsDate f off ⟨by omega, by omega⟩ (by omega) (by omega) (by omega) (by omega) (by omega) ho
-  simp [parseUnits, hsplit, hstrip, hparse]
-
-/-- core of `same_instant`: re-reading what `formatCore` wrote (with the demanded formatter) -/
-theorem refInstant_formatCore (c : CalOps) (L : CalLaws c) (calendar units out : Str) (ref : Int × Bool)
-    (h : formatCore pad4 formatOffset c calendar units = some (out, ref)) :
-    refInstant c calendar out = some (ref.1, false) ∧
-    ∃ p b, parseUnits units = some (p, b) ∧ parseUnits out = some (p, ⟨b.f, false, b.off⟩) ∧
-      out = render pad4 formatOffset p b.f b.off := by
-  obtain ⟨p, b, hp, ho, hr, hvl, hout⟩ := formatCore_some _ _ _ _ _ _ _ h
-  obtain ⟨t, mic⟩ := ref
-  obtain ⟨k, p', b', hk, hp', hu, hv, ht, hmic, hlo, hhi, hpy⟩ := refInstant_some c calendar units t mic hr
-  rw [hp] at hp'
-  obtain ⟨rfl, rfl⟩ : p = p' ∧ b = b' := by simpa using hp'
-  -- the local fields rebuilt by `astimezone` are the fields that were read
-  have hloc : c.ofSec (t + 60 * b.off) = b.f := by
-    have : t + 60 * b.off = c.toSec b.f := by omega
-    rw [this]; exact L.ofSec_toSec b.f hv
-  simp only [hloc] at hout
-  have hpu := parseUnits_render c L p hu b.f hv b.off ho
-  rw [← hout] at hpu
-  refine ⟨?_, p, b, hp, hpu, hout⟩
-  have hlo' : ¬ (c.toSec b.f - 60 * b.off < c.toSec firstFields ∨ c.toSec lastFields < c.toSec b.f - 60 * b.off) := by omega
-  have hpy' : pythonDate k (c.ofSec (c.toSec b.f - 60 * b.off)) = true := by rw [← ht]; exact hpy
-  simp [refInstant, hk, hpu, hu, bitsInstant, hv, hlo', hpy', ht]
 
 /-- **same_instant.** For every units string, calendar, date, time of day and offset: if the
 formatter returns `out`, then `out` denotes (through cftime) exactly the reference instant of the
@@ -244,17 +99,6 @@ theorem same_zone (c : CalOps) (L : CalLaws c) (calendar units out : Str)
       subst h
       exact (refInstant_formatCore c L _ _ _ _ hc).2
 
-/-- The inputs the property quantifies over: a supported unit and calendar, a real date and time
-of day, an offset below 24 h, no sub-second part, and a UTC instant that Python can represent. -/
-structure ValidInput (c : CalOps) (k : CalKind) (p : Str) (b : Bits) : Prop where
-  unit : p ∈ allowedUnits
-  valid : c.valid b.f = true
-  off : b.off.natAbs < 1440
-  micro : b.micro = false
-  lo : c.toSec firstFields ≤ c.toSec b.f - 60 * b.off
-  hi : c.toSec b.f - 60 * b.off ≤ c.toSec lastFields
-  py : pythonDate k (c.ofSec (c.toSec b.f - 60 * b.off)) = true
-
 /-- **Totality on the quantified inputs**, with the exact output: the formatter does not raise on
 any valid input, whatever its spelling, and writes the unit, the local fields and the offset it
 read in the EMS form. -/
@@ -269,6 +113,30 @@ theorem format_valid (c : CalOps) (L : CalLaws c) (calendar units : Str) (k : Ca
   have hloc : c.ofSec (c.toSec b.f) = b.f := L.ofSec_toSec b.f hval
   have ho' : ¬ (1440 ≤ b.off.natAbs) := by omega
   simp [formatTimeUnits, formatCore, hp, ho', hr, hloc, hval]
+
+/-- **Exactly the quantified inputs are rewritten.** The formatter returns a string iff the input
+has a supported unit and calendar, a real date and time of day, an offset below 24 h, no sub-second
+part and a representable UTC instant; every other input is refused (the real function raises). -/
+theorem format_some_iff (c : CalOps) (L : CalLaws c) (calendar units : Str) :
+    (formatTimeUnits c calendar units).isSome = true ↔
+      ∃ k p b, classifyCalendar calendar = some k ∧ parseUnits units = some (p, b) ∧ ValidInput c k p b := by
+  constructor
+  · intro h
+    unfold formatTimeUnits at h
+    cases hc : formatCore pad4 formatOffset c calendar units with
+    | none => simp [hc] at h
+    | some r =>
+      obtain ⟨o, t, mic⟩ := r
+      cases mic with
+      | true => simp [hc] at h
+      | false =>
+        obtain ⟨p, b, hp, ho, hr, _, _⟩ := formatCore_some _ _ _ _ _ _ _ hc
+        obtain ⟨k, p', b', hk, hp', hu, hv, ht, hmic, hlo, hhi, hpy⟩ := refInstant_some c calendar units t false hr
+        rw [hp] at hp'
+        obtain ⟨rfl, rfl⟩ : p = p' ∧ b = b' := by simpa using hp'
+        exact ⟨k, p, b, hk, hp, ⟨hu, hv, ho, hmic.symm, by omega, by omega, by rw [← ht]; exact hpy⟩⟩
+  · rintro ⟨k, p, b, hk, hp, hv⟩
+    simp [format_valid c L calendar units k hk p b hp hv]
 
 /-- The function's own consistency check (`num2pydate(0, new_units) != reference → raise`) never
 fires for the demanded formatter except to reject a sub-second epoch: the model with the check
@@ -301,7 +169,7 @@ def pg : Str := "proleptic_gregorian".toList
 /-! ## every spelling of the quantifier -/
 
 /-- **All spellings.** Written with `T`, a blank or any other separator, with or without seconds,
-with the offset as `±HH:MM`, `±HHMM`, `±HH`, `Z` or absent, attached or after a blank: cftime reads
+zero-padded or not (`1990-1-1 0:00`), with the offset as `±HH:MM`, `±HHMM`, `±HH`, `Z` or absent, attached or after a blank: cftime reads
 the same unit, fields and offset — so the hypotheses of `format_valid` are met by every member of
 the family. -/
 theorem parseUnits_spelled (c : CalOps) (L : CalLaws c) (p : Str) (hp : p ∈ allowedUnits) (f : Fields)
@@ -311,8 +179,8 @@ theorem parseUnits_spelled (c : CalOps) (L : CalLaws c) (p : Str) (hp : p ∈ al
   have hP := isPeriod_of_allowed p hp
   have hsplit : datesplit (spellUnits p f off sp) = some (p, spellDate f off sp) := by
     have : spellDate f off sp = dch (f.year.toNat / 1000) :: (dch (f.year.toNat / 100) ::
-        dch (f.year.toNat / 10) :: dch f.year.toNat :: ('-' :: (pad2 f.month ++ '-' :: (pad2 f.day ++ sp.sep ::
-        (pad2 f.hour ++ ':' :: (pad2 f.minute ++ ((if sp.seconds then ':' :: pad2 f.second else []) ++ tzPart off sp))))))) := by
+        dch (f.year.toNat / 10) :: dch f.year.toNat :: ('-' :: (w2 sp.pad f.month ++ '-' :: (w2 sp.pad f.day ++ sp.sep ::
+        (w2 sp.pad f.hour ++ ':' :: (w2 sp.pad f.minute ++ ((if sp.seconds then ':' :: w2 sp.pad f.second else []) ++ tzPart off sp))))))) := by
       simp [spellDate, pad4]
     unfold spellUnits
     rw [this]
@@ -484,12 +352,17 @@ example : formatTimeUnits gregorian pg "days since 0990-01-01 00:00:00 +10:00".t
 example : refInstant gregorian pg "days since 2000-01-01 00:00:00 +10:00".toList
     = some (946648800, false) := by decide
 /-- members of the spelling family -/
-example : spellUnits "days".toList ⟨1990, 1, 1, 0, 0, 0⟩ 600 ⟨'T', true, .colon, false⟩
+example : spellUnits "days".toList ⟨1990, 1, 1, 0, 0, 0⟩ 600 ⟨'T', true, .colon, false, true⟩
     = "days since 1990-01-01T00:00:00+10:00".toList := by decide
-example : spellUnits "hours".toList ⟨2021, 11, 16, 12, 30, 0⟩ (-210) ⟨' ', false, .compact, true⟩
+example : spellUnits "hours".toList ⟨2021, 11, 16, 12, 30, 0⟩ (-210) ⟨' ', false, .compact, true, true⟩
     = "hours since 2021-11-16 12:30 -0330".toList := by decide
-example : (⟨'T', true, .colon, false⟩ : Spelling).Ok ⟨1990, 1, 1, 0, 0, 0⟩ 600 :=
-  ⟨by decide, by simp, by simp, by simp⟩
+/-- the spelling used by the repository's own test -/
+example : spellUnits "days".toList ⟨1990, 1, 1, 0, 0, 0⟩ 600 ⟨' ', true, .hours, true, false⟩
+    = "days since 1990-1-1 0:0:0 +10".toList := by decide
+example : (⟨'T', true, .colon, false, true⟩ : Spelling).Ok ⟨1990, 1, 1, 0, 0, 0⟩ 600 :=
+  ⟨by decide, by simp, by simp, by simp, by simp⟩
+example : (⟨' ', true, .hours, true, false⟩ : Spelling).Ok ⟨1990, 1, 1, 0, 0, 0⟩ 600 :=
+  ⟨by decide, fun _ => by decide, by simp, fun _ => by decide, by simp⟩
 example : gValid ⟨2000, 2, 29, 23, 59, 59⟩ = true := by decide
 example : timeCoordinate .generic [⟨"a", none, true⟩, ⟨"time", some "days since 1990-01-01".toList, true⟩]
     = some "time" := by decide
